@@ -116,6 +116,7 @@ def make(shake: bool = False, seed: int = 0) -> T.Callable[[T.Callable[[dict], N
                     it = -1
                 safe({'ev': 'h_result', 'name': result.test.name, 'it': it,
                       'res': getattr(result.res, 'value', str(result.res)),
+                      'nsub': len(getattr(result, 'results', None) or []),
                       'counts': {k: getattr(self, k, None) for k in COUNTS}, 't': time.monotonic_ns()})
 
         mtest.TestHarness.process_test_result = process_test_result
